@@ -37,7 +37,7 @@ MIN_EVENTS = {
                  "project_all_constraints/nearest-point": 600, "project_all_constraints/feasible-unchanged": 600},
 }
 ASSUMPTIONS = [
-    "'tends to zero as num_iterations grows' is restated as bounded progress: lattices <= 64 vertices, max violation at N=1000 <= 1e-3*scale and the envelope over N in {1,10,100,1000} non-increasing within a factor 2 above a 1e-6*scale floor",
+    "'tends to zero as num_iterations grows' is restated as bounded progress: lattices <= 64 vertices, max violation <= 5e-2*scale at N=100 and <= 1e-3*scale at N=1000 (no monotone envelope: Dykstra iterates are not monotone in the violation)",
     "nearest-point claim checked at N=1000 with 1e-3*scale (strict layer constraint: 1e-2*scale); range dominance and joint unimodality: feasibility limit and fixed point only",
     "per-group monitor: range-dominance groups are checked for feasibility of their row and for leaving satisfied rows alone (the corner case is documented as not L2-exact)",
     "the nearest-point oracle is KKT-certified; evaluations whose certificate fails are counted as oracle-unavailable, never as violations",
@@ -371,13 +371,17 @@ def _run_dykstra(ctx, case):
   p1000 = project(w, 1000, graph=True)
   viol = [max(_maxviol(A, p[:, u]) for u in range(units)) for p in (p1, p10, p100, p1000)]
   v0 = max(_maxviol(A, w[:, u]) for u in range(units))
-  # (b) bounded progress
-  floor = 1e-6 * scale
-  ok_lim = viol[3] <= 1e-3 * scale
-  ok_env = all(viol[k + 1] <= 2 * max(viol[k], floor) for k in range(3)) and viol[0] <= 2 * max(v0, floor)
-  ctx.check("project_by_dykstra/bounded-progress", ok_lim and ok_env,
-            "violation by N: in=%.3g N=1:%.3g 10:%.3g 100:%.3g 1000:%.3g (limit %.3g)" % (v0, viol[0], viol[1], viol[2], viol[3], 1e-3 * scale),
-            info={"violations": [v0] + viol}, ratio=viol[3] / (1e-3 * scale))
+  # (b) bounded progress.  Dykstra's iterates are not monotone in the violation
+  # (the correction terms may re-introduce a violation that an early sweep had
+  # removed: observed in=241, N=1: 0, N=10: 1.89, N=100: 7.6e-6), so no
+  # monotone envelope is asserted: only the two checkpoints.
+  ok_lim = viol[3] <= 1e-3 * scale and viol[2] <= 5e-2 * scale
+  ctx.check("project_by_dykstra/bounded-progress", ok_lim,
+            "violation by N: in=%.3g N=1:%.3g 10:%.3g 100:%.3g 1000:%.3g (limits: N=100 %.3g, N=1000 %.3g)" % (
+                v0, viol[0], viol[1], viol[2], viol[3], 5e-2 * scale, 1e-3 * scale),
+            info={"violations": [v0] + viol}, ratio=max(viol[3] / (1e-3 * scale), viol[2] / (5e-2 * scale)))
+  if viol[1] > 2 * max(viol[0], 1e-6 * scale):
+    ctx.note("non-monotone-violation-envelope(observed, allowed)")
   # (c) idempotence of the converged result
   again = project(p1000, int(rng.choice([1, 10])))
   d = float(np.abs(again.astype(np.float64) - p1000).max())
